@@ -69,3 +69,8 @@ int main(int argc, char **argv) {
   fprintf(stderr, "completed=%d skipped=%d assert_failed=%d\n", done, skipped, vf_assert_failed);
   return 0;
 }
+#ifdef VF_REAL
+/* real build: harness helpers that vf_rt.c provides for the translated code */
+char *vf_malloc(u64 n) { return (char *)malloc(n ? n : 1); }
+void vf_free(char *p) { free(p); }
+#endif
